@@ -253,8 +253,8 @@ class C06(Prop):
             got = self.run_real(kind, text, names, sem, io, data=None if dense else data, sig=sig if dense else None,
                                 modular=case.get('modular'), cuts=case.get('cuts'))
         except Exception as e:
-            if dense and all(x != x for x in exp.vs):
-                v.skip = 'raised on a completely NaN-tainted formula'
+            if dense and any(x != x for x in exp.vs):
+                v.skip = 'raised on a NaN-tainted formula'
                 return v
             v.bad('raises:' + type(e).__name__, '%s [%s, %s, io=%s]: raised %s: %s' % (
                 text, kind, sem, io, type(e).__name__, e))
